@@ -22,7 +22,8 @@ def run(ctx, theorems, plan, level, explanation, extra_cov=None, assumptions=(),
         'obligations': len(theorems), 'discharged': discharged,
         'checker_cmd': 'lake build FlexVerif fvdriver; #print axioms via tools/fv/common.py',
         'trusted_base': common.TRUSTED_BASE,
-        'traces_validated_against_impl': st['ncases'] - st['nviol'], 'trace_events': st['events'],
+        'traces_validated_against_impl': st['ncases'] - st['nviol'] - st['model_timeouts'], 'trace_events': st['events'],
+        'cases_where_a_lean_matcher_ran_out_of_time': st['model_timeouts'],
         'build_status_counts': st['stats'], 'family_counts': st['fam_stats'], 'feature_counts': st['feat'],
         'explanation': explanation,
     }
@@ -43,6 +44,7 @@ def explore(ctx, plan, post=None):
     distinct = set()
     events = 0
     nviol = 0
+    ntimeouts = 0
     for r in results:
         stats[r['build']] = stats.get(r['build'], 0) + 1
         fs = fam_stats.setdefault(r['fam'], {'scanners': 0, 'cases': 0, 'diffs': 0})
@@ -70,6 +72,9 @@ def explore(ctx, plan, post=None):
             ncases += 1
             fs['cases'] += 1
             events += c['events']
+            if c.get('model_timeout'):
+                fs['model_timeouts'] = fs.get('model_timeouts', 0) + 1
+                ntimeouts += 1
             bad = c['rc'] != 0 or c['d_model'] is not None or c['d_spec'] is not None or c.get('ledger')
             if not bad:
                 if c['events'] >= 4:
@@ -98,4 +103,4 @@ def explore(ctx, plan, post=None):
     if post:
         post(ctx, results)
     return {'ncases': ncases, 'distinct': distinct, 'samples': samples, 'nviol': nviol, 'events': events, 'stats': stats,
-            'fam_stats': fam_stats, 'feat': feat}
+            'fam_stats': fam_stats, 'feat': feat, 'model_timeouts': ntimeouts}
